@@ -185,6 +185,11 @@ func mkQ(a int8, s string) *Q { return &Q{A: a, S: s} }
 func nilSlice() []int { var s []int; return s }
 func nilMap() map[string]int { var m map[string]int; return m }
 func zeroP() *P { return &P{} }
+type AB struct { A int; B int; Zed string }
+type BA struct { Zed string; B int; A int }
+func mkAB(a int, b int) *AB { return &AB{A: a, B: b, Zed: "z"} }
+func mkBA(a int, b int) *BA { return &BA{A: a, B: b, Zed: "z"} }
+func mkBoth(a int) []any { return []any{&BA{A: a}, &AB{B: a}} }
 func mapdel(m map[string]int, k1 string, k2 string) map[string]int { delete(m, k1); delete(m, k2); return m }
 func mapdelf(m map[float64]string, k1 float64, k2 float64) map[float64]string { delete(m, k1); delete(m, k2); return m }
 func wrapm(m map[string]int) []map[string]int { return []map[string]int{m} }
@@ -299,6 +304,16 @@ func c14One(w *c14Worker, seed int64, idx int) (string, c14Case, bool) {
 		}
 		if got != want+" 7\n" {
 			return mismatch("fmt.Println(structRef, 7)", want+" 7\n", got), cs, true
+		}
+		// two types that use the same field names in opposite orders: each prints in the order of its own declaration
+		for fn, wantO := range map[string]string{"mkAB": fmt.Sprintf("&{A:%d B:7 Zed:z}", x), "mkBA": fmt.Sprintf("&{Zed:z B:7 A:%d}", x)} {
+			_, or, e := w.out(fn, 1, goatlang.Int32(x), goatlang.Int(7))
+			if e != "" {
+				return e, cs, true
+			}
+			if got := or[0].String(); got != wantO {
+				return mismatch("struct reference of a type sharing its field names with another type ("+fn+")", wantO, got), cs, true
+			}
 		}
 		_, zr, e := w.out("zeroP", 1)
 		if e != "" {
